@@ -78,7 +78,20 @@ pub fn number_regex_parser(config: &SmartCalcConfig, tokinizer: &mut Tokinizer, 
             }
             else if let Some(decimal) = capture.name("DECIMAL") {
                 parse_end = decimal.end();
-                number = match decimal.as_str().replace(&config.thousand_separator[..], "").replace(&config.decimal_seperator[..], ".").parse::<f64>() {
+                let read = |text: &str| text.replace(&config.thousand_separator[..], "").replace(&config.decimal_seperator[..], ".").parse::<f64>();
+
+                /* A '.' or ',' at the end that makes the literal unreadable in the configured convention is punctuation
+                   behind the number ('apr 29, 2020'), not a part of it */
+                let trimmed = decimal.as_str().trim_end_matches(|ch| ch == '.' || ch == ',');
+                let literal = match read(decimal.as_str()) {
+                    Err(_) if trimmed.len() < decimal.as_str().len() && capture.name("NOTATION").is_none() => {
+                        parse_end = decimal.start() + trimmed.len();
+                        read(trimmed)
+                    },
+                    result => result
+                };
+
+                number = match literal {
                     Ok(num) => {
                         number_match = Some(decimal);
                         match capture.name("NOTATION") {
@@ -108,7 +121,11 @@ pub fn number_regex_parser(config: &SmartCalcConfig, tokinizer: &mut Tokinizer, 
             }
 
             if tokinizer.add_token_location(capture.get(0).unwrap().start(), parse_end, Some(TokenType::Number(number, number_type)), capture.get(0).unwrap().as_str().to_string()) {
-                tokinizer.add_uitoken_from_match(number_match, UiTokenType::Number);
+                match number_match {
+                    /* Punctuation behind the digits is not highlighted as a part of the number */
+                    Some(digits) if parse_end < digits.end() => tokinizer.ui_tokens.add_from_byte_range(digits.start(), parse_end, UiTokenType::Number),
+                    _ => tokinizer.add_uitoken_from_match(number_match, UiTokenType::Number)
+                };
                 tokinizer.add_uitoken_from_match(notation_match, UiTokenType::Symbol2);
             }
         }
